@@ -10,14 +10,14 @@ from .lib.mir import AnchorLost
 CONFIGS_QUICK = ["A"]
 CONFIGS_THOROUGH = ["A", "R"]
 TECHNIQUE = "vocabulary tables read from the compiled constants and from the derive(Serialize) output (the keys serde really writes) vs the OpenAPI 3.1 / JSON Schema 2020-12 fixed fields; sibling-family rule over IntoHandler impls; exhaustiveness over authentication fangs"
-LEVEL_TEXT = ("Decides clauses C15-a/b/c: every SchemaType::NAME is a JSON Schema 2020-12 type name (or empty = any); the keys each OpenAPI object actually "
-              "serializes (read from the derive output, renames applied) are fixed fields of that object in OpenAPI 3.1, required fields are written "
-              "unconditionally, and keywords the meta-schema types as number/boolean/string/array carry a Rust type of that kind; ParameterKind is within "
-              "{path,query,header,cookie}; Operations::register accepts exactly the lower-case Path Item methods gen_openapi_doc produces; path parameters are "
-              "required; each IntoHandler impl documents exactly its p path parameters and q request items, in signature order, on top of the body's "
-              "responses; gen_openapi_doc names the path parameters from the route template in order and registers every referenced schema and security "
-              "scheme component; every builtin fang that can answer 401 overrides openapi_map_operation with a security requirement. Decides these "
-              "clauses, not document <=> application for all applications.")
+LEVEL_TEXT = ('Decides clauses C15-a/b/c/d: every SchemaType::NAME is a JSON Schema 2020-12 type name (or empty = any); the keys each OpenAPI object actually '
+              'serializes (read from the derive output, renames applied) are fixed fields of that object in OpenAPI 3.1, required fields are written unconditionally,'
+              ' and keywords the meta-schema types as number/boolean/string/array carry a Rust type of that kind; ParameterKind is within {path,query,header,cookie};'
+              ' Operations::register accepts exactly the lower-case Path Item methods gen_openapi_doc produces; path parameters are required; each IntoHandler impl '
+              "documents exactly its p path parameters and q request items, in signature order, on top of the body's responses; gen_openapi_doc names the path "
+              'parameters from the route template in order and registers every referenced schema and security scheme component; every builtin fang that can answer '
+              '401 overrides openapi_map_operation with a security requirement; the route table the document is generated from only ever accumulates (registering or '
+              'mounting onto an existing route extends its method map, never replaces it). Decides these clauses, not document <=> application for all applications.')
 
 JSON_SCHEMA_TYPES = {"string", "number", "integer", "boolean", "array", "object", "null", ""}
 FIXED = {
